@@ -385,7 +385,12 @@ class WebsocketSession(object):
             return
 
         # Connected to the server, but not yet upgraded to websockets
-        yield events.Connected(url, proxy=proxy)
+        try:
+            yield events.Connected(url, proxy=proxy)
+        except GeneratorExit:
+            # The consumer stopped iterating, don't leak the socket
+            self._close_socket()
+            raise
 
         selector = self._selector_cls(sock)
         log.debug('%r created', selector)
@@ -435,3 +440,5 @@ class WebsocketSession(object):
             yield events.Disconnected(graceful=True)
         finally:
             selector.close()
+            # A no-op unless the consumer abandoned the generator
+            self._close_socket()
